@@ -185,17 +185,16 @@ def allowedContextReaders : List (String × String) := [
 site of `State::lookup` / `Context::load` / the context value / `known_variables` /
 `clone_base` / `call_macro` in `minijinja/src` and `minijinja-contrib/src` (regenerated from
 the sources) is one of the classified sites above; in particular no builtin filter, test,
-function or object method (`filters.rs`, `tests.rs`, `functions.rs`, `value/…`, pycompat)
-reads the context. -/
+function or object method (`c18BuiltinFiles`: `filters.rs`, `tests.rs`, `functions.rs`,
+`value/…`, contrib pycompat/globals/tests) reads the context. -/
 theorem builtins_do_not_read_context :
-    (∀ r ∈ MJ.Gen.c18ContextReaders, r ∈ allowedContextReaders.map Prod.fst) ∧
     (∀ r ∈ MJ.Gen.c18ContextReaders,
-      ¬ r.startsWith "minijinja/src/filters.rs" ∧ ¬ r.startsWith "minijinja/src/tests.rs" ∧
-      ¬ r.startsWith "minijinja/src/functions.rs" ∧ ¬ r.startsWith "minijinja/src/value/" ∧
-      ¬ r.startsWith "minijinja-contrib/src/pycompat.rs") := by
+      (r.1 ++ "::" ++ r.2) ∈ allowedContextReaders.map Prod.fst) ∧
+    (∀ r ∈ MJ.Gen.c18ContextReaders, r.1 ∉ MJ.Gen.c18BuiltinFiles) := by
   decide
 
-example : "minijinja/src/vm/mod.rs::eval_impl" ∈ MJ.Gen.c18ContextReaders := by decide
+example : ("minijinja/src/vm/mod.rs", "eval_impl") ∈ MJ.Gen.c18ContextReaders
+    ∧ "minijinja/src/filters.rs" ∈ MJ.Gen.c18BuiltinFiles := by decide
 
 /-- The analysis cannot hit `unwrap()` on an empty scope stack (either mode). -/
 theorem analysis_no_panic (t : List Stmt) :
